@@ -697,6 +697,7 @@ pub fn plain_write(t: usize, addr: usize, len: usize, what: &'static str) {
     }
     if let Some(d) = hit {
         s.violation("C02", "zeroed_live_range", d.clone());
+        s.violation("C04", "alloc_wrote_outside_its_range", format!("[under interleaving] {}", d));
         s.set_abort("zeroed_live_range", d);
         drop(g);
         abort_run("aborted", String::new());
@@ -1009,6 +1010,7 @@ fn run_top(t: usize, op: &TOp, arenas: &mut Vec<Option<Box<Arena>>>, handles: &m
                                 if r.cap > 0 && off < r.off + r.cap && r.off < off + cap {
                                     let d = format!("[alloc] T{} was handed [{},{}) which overlaps live range id={} [{},{}) of T{}", t, off, off + cap, r.id, r.off, r.off + r.cap, if r.owner == CONTROLLER { 99 } else { r.owner });
                                     s.violation("C02", "overlap", d.clone());
+                                    s.violation("C04", "ok_handle_overlaps", format!("[under interleaving] {}", d));
                                     bad = true;
                                     break;
                                 }
